@@ -26,6 +26,7 @@ from __future__ import annotations
 import copy
 import json
 import multiprocessing as mp
+import zlib
 
 import numpy as np
 
@@ -54,7 +55,8 @@ def _vol_chunk(args):
     nontriv = []
     for j, line in enumerate(lines):
         rec = json.loads(line)
-        i = base + j
+        # TLC's emission order varies between runs: derive flavour / sampling from the content
+        i = zlib.crc32(line.strip().encode()) % 1000003
         variant = i + seed
         bad = S.check_vol(rec, variant)
         n_eval += 1
@@ -81,7 +83,7 @@ def _nb_chunk(args):
     nontriv = 0
     for j, line in enumerate(lines):
         rec = json.loads(line)
-        out.extend(S.check_nb(rec, base + j + seed))
+        out.extend(S.check_nb(rec, zlib.crc32(line.strip().encode()) % 1000003 + seed))
         nontriv += 1 < len(rec['nb']) < int(np.prod(rec['shape']))
     return len(lines), nontriv, out
 
